@@ -179,15 +179,16 @@ def bodies(n):
     return names, forms
 
 
-def expand_checked(ctx, text, ident, witness, expect_error=False, budget=20):
+def expand_checked(ctx, text, ident, witness, expect_error=False, budget=20, start=True, **kw):
     global evaluations
     evaluations += 1
-    ctx.start_page("Tt")
+    if start:
+        ctx.start_page("Tt")
     t0 = time.time()
     signal.alarm(budget)
     try:
         with quiet_stdout():
-            out = ctx.expand(text)
+            out = ctx.expand(text, **kw)
     except Timeout:
         failures[(ident, "timeout")] = {"ident": ident + "#bounded-terminates", "witness_class": "timeout",
                                         "what": f"expand did not return within {budget}s", "witness": witness}
@@ -258,6 +259,23 @@ for depth in (5, 50, 99, 100, 101, 150):
 c4 = new_ctx({"r": "{{r}}", "p": "{{q}}", "q": "{{p}}", "deep": "{{deep|{{{1|}}}x}}"})
 for page in ("{{r}}", "{{p}}", "{{deep}}", "{{r}} {{r}} {{p}}"):
     expand_checked(c4, page, "core:Wtp.expand", {"page": page, "library": "r->r, p<->q, deep->deep"}, expect_error=True)
+
+# ---- (3b) option combinations, several expansions per started page
+c5 = new_ctx({"a": "A{{{1|}}}", "pf": "{{#if:{{{1|}}}|y|n}}", "inv": "{{#invoke:m|f}}"},
+             parser_function_aliases={"#invoque": "#invoke"})
+PAGES = ["{{#invoke:m|f}} {{#invoke:m|g}} {{a}}", "{{#invoque:m|f}} {{a|x}} {{#invoque:m|f}}", "{{inv}} {{inv}} {{pf|1}}",
+         "{{a|{{#invoke:m|f}}}} {{lc:X}}", "{{#if:x|{{#invoke:m}}|n}} {{#invoke}} {{a}}", "{{pf}} {{nosuch|{{a}}}}"]
+for pfn, inv, pre in itertools.product([True, False], repeat=3):
+    if inv and pfn:
+        continue    # would start the Lua sandbox, whose libraries are absent offline
+    for page in PAGES:
+        c5.start_page("Tt")
+        for rep in range(3):
+            expand_checked(c5, page, "core:Wtp.expand",
+                           {"page": page, "options": dict(expand_parserfns=pfn, expand_invoke=inv, pre_expand=pre),
+                            "repetition": rep}, start=False,
+                           expand_parserfns=pfn, expand_invoke=inv, pre_expand=pre)
+        distinct.add(("opts", page, pfn, inv, pre))
 
 # ---- (4) detect_expand_template_loop vs spec on all short stacks
 def spec_loop(stack):
